@@ -46,18 +46,19 @@ from .common import module, top_func, codes, TranslationError, HEADER
 
 OUTPUTS = ['HierGen.v']
 
-FUNCS = ['_round', '_hierarchy_bounds', '_count_inversions', '_compare_frame_rankings', '_gauc', '_lca']
+FUNCS = ['_round', '_hierarchy_bounds', '_count_inversions', '_compare_frame_rankings', '_gauc', '_lca', '_meet']
+UTIL_CALLEES = ['index_labels']                   # util.<name>: opaque callees, signature read from util.py
 BUILTINS = {'len': (1, 1), 'float': (1, 1), 'int': (1, 1), 'min': (1, 2), 'max': (1, 2), 'sum': (1, 1), 'list': (1, 1),
             'range': (1, 1), 'enumerate': (1, 2), 'zip': (1, 8), 'slice': (1, 2)}      # name: (min, max) positional arguments
 TYPES = {'int', 'float', 'np.uint8'}
 LIBFUNCS = {'np.argsort', 'np.unique', 'np.sum', 'np.concatenate', 'np.mod', 'np.asarray', 'scipy.sparse.lil_matrix',
-            'itertools.combinations', 'itertools.tee'}
+            'itertools.combinations', 'itertools.tee', 'np.equal.outer', 'np.triu', 'np.where', 'scipy.sparse.csr_matrix'}
 LIB_FRESH = LIBFUNCS - {'np.asarray', 'itertools.tee'}               # results that no other reference can reach
 METHODS = {'toarray': 0, 'tocsr': 0, 'ravel': 0, 'astype': 1}         # name: number of positional arguments
 ATTRS = {'shape'}
 ITER_PRODUCERS = {'itertools.chain', 'itertools.combinations', 'itertools.tee', 'zip'}
-COPYING = set(BUILTINS) | {'np.argsort', 'np.unique', 'np.sum', 'np.concatenate', 'np.mod',
-                                      'scipy.sparse.lil_matrix'}       # results never alias their arguments' containers
+COPYING = set(BUILTINS) | {'np.argsort', 'np.unique', 'np.sum', 'np.concatenate', 'np.mod', 'scipy.sparse.lil_matrix',
+                           'np.equal.outer', 'np.triu', 'np.where', 'scipy.sparse.csr_matrix'}       # results never alias their arguments' containers
 MUTATING = {'update', 'pop', 'popitem', 'clear', 'setdefault', 'append', 'extend', 'insert', 'remove', 'add', 'discard',
             'sort', 'reverse', 'fill', 'put', 'resize', 'itemset', 'difference_update', 'intersection_update',
             'symmetric_difference_update', '__setitem__', '__delitem__', '__iadd__', '__ior__', 'setdiag', 'eliminate_zeros',
@@ -151,13 +152,17 @@ def check_module(tree):
     plain_import('itertools', 'itertools', None)
     plain_import('collections', 'collections', None)
     plain_import('scipy', 'scipy.sparse', None)
+    ut = tops.get('util', [])
+    if len(ut) != 1 or not (isinstance(ut[0], ast.ImportFrom) and ut[0].level == 1 and ut[0].module is None
+                            and len(ut[0].names) == 1 and ut[0].names[0].name == 'util' and ut[0].names[0].asname is None):
+        fail('`util` is not bound exactly once by `from . import util`')
     for b in list(BUILTINS) + ['int', 'float', 'bool', 'super', 'Exception'] + sorted(EXN):
         if b in tops:
             fail('builtin %r is rebound at module level' % b)
     for f in FUNCS:
         if len(tops.get(f, [])) != 1 or not isinstance(tops[f][0], ast.FunctionDef) or tops[f][0].decorator_list:
             fail('%s is not bound exactly once, by an undecorated top-level def' % f)
-    watched = set(FUNCS) | {'np', 'itertools', 'collections', 'scipy'}
+    watched = set(FUNCS) | {'np', 'itertools', 'collections', 'scipy', 'util'}
     for n in ast.walk(tree):
         if isinstance(n, (ast.Global, ast.Nonlocal)):
             fail('global / nonlocal declaration', n)
@@ -174,6 +179,18 @@ def check_module(tree):
             fail('augmented assignment to %s' % base_name(n.target), n)
         if isinstance(n, (ast.Import, ast.ImportFrom)) and not any(n is t for t in tree.body):
             fail('import inside a function', n)
+
+
+def check_util(tree):
+    for f in UTIL_CALLEES:
+        found = [n for n in tree.body if isinstance(n, ast.FunctionDef) and n.name == f]
+        if len(found) != 1 or found[0].decorator_list:
+            fail('util.%s is not bound exactly once, by an undecorated top-level def' % f)
+        for n in ast.walk(tree):
+            if isinstance(n, ast.Name) and n.id == f and isinstance(n.ctx, (ast.Store, ast.Del)):
+                fail('util.%s is rebound' % f, n)
+            if isinstance(n, (ast.Global, ast.Nonlocal)) and f in n.names:
+                fail('util.%s is declared global' % f, n)
 
 
 def signature(node, who):
@@ -234,7 +251,7 @@ class Fn:
         for sub in ast.walk(node):
             if is_ddict_call(sub) and len(sub.args) == 1 and isinstance(sub.args[0], ast.Lambda):
                 lambdas_ok.add(id(sub.args[0]))
-            if isinstance(sub, ast.Call) and ast.unparse(sub.func) == 'itertools.chain' and len(sub.args) == 1 \
+            if isinstance(sub, ast.Call) and ast.unparse(sub.func) in ('itertools.chain', 'zip', 'slice') and len(sub.args) == 1 \
                     and isinstance(sub.args[0], ast.Starred) and not sub.keywords:
                 starred_ok.add(id(sub.args[0]))
         for sub in ast.walk(node):
@@ -243,11 +260,11 @@ class Fn:
             if isinstance(sub, SCOPES) and id(sub) not in lambdas_ok:
                 fail('%s: nested scope' % qual, sub)
             if isinstance(sub, ast.Starred) and id(sub) not in starred_ok:
-                fail('%s: starred expression outside itertools.chain(*e)' % qual, sub)
+                fail('%s: starred expression outside itertools.chain(*e) / zip(*e) / slice(*e)' % qual, sub)
             if isinstance(sub, (ast.Global, ast.Nonlocal, ast.NamedExpr, ast.Await, ast.Yield, ast.YieldFrom,
                                 ast.Try, ast.With, ast.Delete, ast.Import, ast.ImportFrom, ast.SetComp,
                                 ast.DictComp, ast.GeneratorExp, ast.AnnAssign, ast.JoinedStr, ast.Set, ast.Dict,
-                                ast.IfExp, ast.Assert, ast.Break, ast.Continue,
+                                ast.IfExp, ast.Assert, ast.Break,
                                 ast.Match if hasattr(ast, 'Match') else ast.Try)):
                 fail('%s: unsupported construct %s' % (qual, type(sub).__name__), sub)
         # locals: every name stored in this scope outside comprehensions (comprehension targets live in their own scope)
@@ -265,6 +282,16 @@ class Fn:
         self.locals.sort(key=lambda x: min((m.lineno, m.col_offset) for m in walk_shallow(node)
                                            if isinstance(m, ast.Name) and m.id == x and isinstance(m.ctx, ast.Store)
                                            and id(m) not in comp_targets))
+        self.synthetic = {}
+        for sub in walk_shallow(node):
+            if isinstance(sub, ast.For) and isinstance(sub.target, ast.Tuple):
+                for k, m in enumerate(sub.target.elts):
+                    if isinstance(m, ast.Tuple):
+                        name = '_unpacked_%d' % (len(self.synthetic) + 1)
+                        if any(isinstance(z, ast.Name) and z.id == name for z in ast.walk(node)) or name in self.params:
+                            fail('%s: the name %s is taken' % (qual, name), sub)
+                        self.synthetic[(id(sub), k)] = name
+                        self.locals.append(name)
         for x in self.params + self.locals:
             if not (x.isidentifier() and x.isascii()) or x in RESERVED or x in FUNCS:
                 fail('%s: the local name %r shadows a name this translator gives a fixed meaning' % (qual, x), node)
@@ -581,6 +608,9 @@ class Fn:
             if len(n.args) != 1 or not isinstance(n.args[0], ast.Starred) or n.keywords:
                 fail('itertools.chain other than chain(*e)', n)
             return '(EBuiltin %s [%s] [])' % (cstr('itertools.chain*'), self.ex(n.args[0].value, comp))
+        if full in ('zip', 'slice') and len(n.args) == 1 and isinstance(n.args[0], ast.Starred) and not n.keywords \
+                and not self.is_local(full, comp):
+            return '(EBuiltin %s [%s] [])' % (cstr(full + '*'), self.ex(n.args[0].value, comp))
         if full == 'collections.defaultdict':
             if len(n.args) != 1 or n.keywords or not isinstance(n.args[0], ast.Lambda):
                 fail('defaultdict other than defaultdict(lambda: c)', n)
@@ -613,6 +643,9 @@ class Fn:
         if isinstance(f, ast.Attribute):
             if full in LIBFUNCS:
                 return '(EBuiltin %s %s %s)' % (cstr(full), clist(pos), self.kwargs(n, comp))
+            if isinstance(f.value, ast.Name) and f.value.id == 'util' and f.attr in UTIL_CALLEES \
+                    and not self.is_local('util', comp):
+                return '(ECall %s %s %s)' % (cstr(full), clist(pos), self.kwargs(n, comp))
             if f.attr in METHODS and base_name(f) not in MODULES:
                 if n.keywords or len(pos) != METHODS[f.attr]:
                     fail('method %s with unexpected arguments' % f.attr, n)
@@ -634,12 +667,12 @@ class Fn:
                     out.add(sub.func.value.id)
         return out
 
-    def block(self, stmts, ind):
+    def block(self, stmts, ind, loop=False):
         out = []
         for i, s in enumerate(stmts):
-            out.extend(self.stmt(s, ind))
-            if isinstance(s, (ast.Return, ast.Raise)) and i + 1 < len(stmts):
-                fail('statement after return / raise', stmts[i + 1])
+            out.extend(self.stmt(s, ind, loop))
+            if isinstance(s, (ast.Return, ast.Raise, ast.Continue)) and i + 1 < len(stmts):
+                fail('statement after return / raise / continue', stmts[i + 1])
         return out
 
     def fmt_block(self, items, ind):
@@ -648,9 +681,13 @@ class Fn:
             return '[]'
         return '[' + pad + (';' + pad).join(items) + ']'
 
-    def stmt(self, s, ind):
+    def stmt(self, s, ind, loop=False):
         if isinstance(s, ast.Pass):
             return ['SPass']
+        if isinstance(s, ast.Continue):
+            if not loop:
+                fail('continue outside a loop', s)
+            return ['SContinue']
         if isinstance(s, ast.Expr):
             v = s.value
             if isinstance(v, ast.Call) and isinstance(v.func, ast.Attribute) and v.func.attr == 'append' \
@@ -688,29 +725,44 @@ class Fn:
             x = s.target.id
             return ['SAug %s %s %s' % (cstr(x), BIN[type(s.op)], self.ex(s.value))]
         if isinstance(s, ast.If):
-            a = self.block(s.body, ind + 1)
-            b = self.block(s.orelse, ind + 1)
+            a = self.block(s.body, ind + 1, loop)
+            b = self.block(s.orelse, ind + 1, loop)
             return ['SIf %s %s %s' % (self.ex(s.test), self.fmt_block(a, ind + 1), self.fmt_block(b, ind + 1))]
         if isinstance(s, ast.For):
             if s.orelse:
                 fail('for ... else', s)
+            pre = []
             if isinstance(s.target, ast.Name):
                 xs = [s.target.id]
-            elif isinstance(s.target, ast.Tuple) and len(s.target.elts) >= 2 and all(isinstance(m, ast.Name) for m in s.target.elts) \
-                    and len({m.id for m in s.target.elts}) == len(s.target.elts):
-                xs = [m.id for m in s.target.elts]
+            elif isinstance(s.target, ast.Tuple) and len(s.target.elts) >= 2:
+                # a nested tuple target  a, (b, c)  is read as  a, t  followed by  b, c = t  (t a name of the translator)
+                xs = []
+                for k, m in enumerate(s.target.elts):
+                    if isinstance(m, ast.Name):
+                        xs.append(m.id)
+                    elif isinstance(m, ast.Tuple) and len(m.elts) >= 2 and all(isinstance(z, ast.Name) for z in m.elts):
+                        t = self.synthetic[(id(s), k)]
+                        xs.append(t)
+                        pre.append('SUnpack %s (ELoc %s)' % (clist([cstr(z.id) for z in m.elts]), cstr(t)))
+                        xs_inner = [z.id for z in m.elts]
+                    else:
+                        fail('unsupported loop target', s)
+                allnames = [z.id for z in ast.walk(s.target) if isinstance(z, ast.Name)]
+                if len(set(allnames)) != len(allnames):
+                    fail('repeated name in a loop target', s)
             else:
                 fail('unsupported loop target', s)
             used = {m.id for m in ast.walk(s.iter) if isinstance(m, ast.Name)}
-            clash = used & (self.written_in(s.body) | set(xs))
+            targets = {z.id for z in ast.walk(s.target) if isinstance(z, ast.Name)}
+            clash = used & (self.written_in(s.body) | targets)
             if clash:
                 fail('the iterable of a loop mentions %s, which the loop writes' % sorted(clash), s)
-            body = self.block(s.body, ind + 1)
+            body = pre + self.block(s.body, ind + 1, True)
             return ['SFor %s %s %s' % (clist([cstr(x) for x in xs]), self.ex(s.iter), self.fmt_block(body, ind + 1))]
         if isinstance(s, ast.While):
             if s.orelse:
                 fail('while ... else', s)
-            body = self.block(s.body, ind + 1)
+            body = self.block(s.body, ind + 1, True)
             return ['SWhile %s %s' % (self.ex(s.test), self.fmt_block(body, ind + 1))]
         if isinstance(s, ast.Return):
             if s.value is None:
@@ -747,8 +799,14 @@ def ident(q):
 def generate():
     tree = module('hierarchy')
     check_module(tree)
+    utree = module('util')
+    check_util(utree)
     nodes = {f: top_func(tree, f) for f in FUNCS}
     fns = [(f, Fn(nodes[f], f)) for f in FUNCS]
+    prims = []
+    for c in UTIL_CALLEES:
+        ps, ds = signature(top_func(utree, c), 'util.' + c)
+        prims.append(('util.' + c, params_coq(ps, ds, 'util.' + c)))
     t = HEADER
     t += '(* the internals of mir_eval/hierarchy.py as programs of Model/HierExp.v *)\n'
     t += 'From Coq Require Import String.\nFrom Coq Require Import List ZArith QArith.\n'
@@ -757,4 +815,7 @@ def generate():
         t += '(* hierarchy.%s *)\nDefinition %s : fdef :=\n  %s.\n' % (q, ident(q), fn.coq())
     t += '(* every function with its signature source *)\n'
     t += 'Definition hier_funs : list (string * fdef) :=\n  %s.\n' % clist(['(%s, %s)' % (cstr(q), ident(q)) for q, _ in fns])
+    t += '(* the callees that are tied elsewhere, with their signatures as read from util.py *)\n'
+    t += 'Definition hier_prims : list (string * list (string * option exp)) :=\n  %s.\n' % clist(
+        ['(%s, %s)' % (cstr(k), v) for k, v in prims])
     return {'HierGen.v': t}
